@@ -45,6 +45,7 @@ func (l *Lines) Len() int {
 // Next returns whether the next call of Line will return a valid line.
 func (l *Lines) Next() bool {
 	if l.pos >= l.len {
+		l.curr = nil
 		return false
 	}
 	ok := l.iter.Next()
@@ -116,6 +117,7 @@ func (l *WeightedLines) Len() int {
 // Next returns whether the next call of WeightedLine will return a valid line.
 func (l *WeightedLines) Next() bool {
 	if l.pos >= l.len {
+		l.curr = nil
 		return false
 	}
 	ok := l.iter.Next()
